@@ -659,7 +659,8 @@ def _ptf(q):
         except Exception as e:  # noqa: BLE001
             fid = None
             zero_rows = [r for r in exp['climb'] if 0.0 in r[2:5]]
-            if zero_rows and 'zero ROC does not have full coverage' in str(e):
+            # signature: the zero climb rate lands in the cruise (zero ROC) sub-table, whose grid check fails
+            if zero_rows and 'at zero ROC' in str(e):
                 fid = F_PTF0
             vio.append(V('ptf-model-not-loadable', f'{q}: {type(e).__name__}: {str(e)[:300]}', finding=fid))
             return f'ptf-refused:{type(e).__name__}', vio
